@@ -170,6 +170,9 @@ type Atom struct {
 	X   ssa.Value
 	Y   ssa.Value
 	Neg bool // the condition is the negation of the atom
+	// VInv: for comparison atoms, V (the original comparison instruction) is true exactly
+	// when the normalised atom is false (V was !=, >= or <=).
+	VInv bool
 }
 
 // Normalize reduces a boolean SSA value to an atom with polarity.
@@ -211,15 +214,15 @@ func Normalize(v ssa.Value) Atom {
 				if n {
 					neg = !neg
 				}
-				return Atom{Op: token.EQL, X: x.X, Y: x.Y, Neg: neg, V: x}
+				return Atom{Op: token.EQL, X: x.X, Y: x.Y, Neg: neg, V: x, VInv: x.Op == token.NEQ}
 			case token.LSS:
 				return Atom{Op: token.LSS, X: x.X, Y: x.Y, Neg: neg, V: x}
 			case token.GTR: // a > b == b < a
 				return Atom{Op: token.LSS, X: x.Y, Y: x.X, Neg: neg, V: x}
 			case token.GEQ: // a >= b == !(a < b)
-				return Atom{Op: token.LSS, X: x.X, Y: x.Y, Neg: !neg, V: x}
+				return Atom{Op: token.LSS, X: x.X, Y: x.Y, Neg: !neg, V: x, VInv: true}
 			case token.LEQ: // a <= b == !(b < a)
-				return Atom{Op: token.LSS, X: x.Y, Y: x.X, Neg: !neg, V: x}
+				return Atom{Op: token.LSS, X: x.Y, Y: x.X, Neg: !neg, V: x, VInv: true}
 			}
 		}
 		return Atom{V: v, Neg: neg}
